@@ -162,6 +162,19 @@ class _Canon(ast.NodeTransformer):
         return out
 
 
+_component_cache = {}
+
+
+def _component(value, i):
+    k = (id(value), i)
+    if k not in _component_cache:
+        n = ast.Subscript(value=value, slice=ast.Constant(value=i), ctx=ast.Load())
+        ast.copy_location(n, value)
+        ast.copy_location(n.slice, value)
+        _component_cache[k] = n
+    return _component_cache[k]
+
+
 def _copy_expr(n):
     return ast.parse(ast.unparse(n), mode="eval").body
 
@@ -493,17 +506,19 @@ class Walker:
             return self.expr(st.test, states, frame)
         raise AnalysisError("statement kind %s not supported at %s" % (type(st).__name__, getattr(st, "lineno", "?")))
 
-    def assign(self, s, tgt, value, st, frame):
+    def assign(self, s, tgt, value, st, frame, component=False):
         if isinstance(tgt, (ast.Tuple, ast.List)):
             for i, el in enumerate(tgt.elts):
                 sub = None
                 if isinstance(value, (ast.Tuple, ast.List)) and len(value.elts) == len(tgt.elts):
                     sub = value.elts[i]
-                s = self.assign(s, el, sub, st, frame)
+                elif value is not None and not isinstance(value, (ast.Tuple, ast.List)) and not any(isinstance(x, ast.Starred) for x in tgt.elts):
+                    sub = _component(value, i)       # unpacking: the i-th component of the value
+                s = self.assign(s, el, sub, st, frame, component=sub is not None and not isinstance(value, (ast.Tuple, ast.List)))
             return s
         if isinstance(tgt, ast.Starred):
             return self.assign(s, tgt.value, None, st, frame)
-        av = self.alias_value(value, frame, s.env) if value is not None else None
+        av = self.alias_value(value, frame, s.env) if value is not None and not component else None
         vc = self.canon(value, frame, s.env) if value is not None else "?"
         if isinstance(tgt, ast.Name):
             name = tgt.id + frame.tag
@@ -623,8 +638,16 @@ class Walker:
             states = nxt
         return states
 
-    def resolve_self_call(self, call, frame):
+    def resolve_self_call(self, call, frame, env=None):
         f = call.func
+        if isinstance(f, ast.Name) and env is not None and frame.cls is not None:
+            # a local bound to a bound method of self (h = self.m ... h())
+            v = env.get((frame.fid, f.id))
+            if isinstance(v, str):
+                m = re.fullmatch(r"self\.(\w+)", v)
+                if m and not self.view.is_property(m.group(1)):
+                    return self.view.resolve(m.group(1))
+            return None
         if isinstance(f, ast.Attribute):
             if isinstance(f.value, ast.Name) and f.value.id == "self":
                 if frame.cls is None:
@@ -641,7 +664,13 @@ class Walker:
         recv = self.canon(f.value, frame, s.env) if isinstance(f, ast.Attribute) else None
         args = [self.canon(a, frame, s.env) for a in call.args]
         kw = {k.arg: self.canon(k.value, frame, s.env) for k in call.keywords if k.arg}
-        target = self.resolve_self_call(call, frame)
+        target = self.resolve_self_call(call, frame, s.env)
+        if target is not None and isinstance(f, ast.Name):
+            meth, recv = target[1].name, "self"
+        elif isinstance(f, ast.Name) and s.env.get((frame.fid, f.id)):
+            al = s.env[(frame.fid, f.id)]
+            if isinstance(al, str) and al.isidentifier() and "__" not in al:
+                meth = al        # a local / parameter bound to a class or function name: the callee is that name
         if target is not None and self.view.is_property(meth):
             target = None
         ev = Event("call", call, frame, meth=meth, recv=recv, args=args, kw=kw, target=target, incomp=incomp,
@@ -724,10 +753,22 @@ class Walker:
             return False
         return True
 
+    def _with_method_facts(self, f, facts):
+        """a bound method `self.m` (a local aliased to it, after canonicalisation) is neither None nor false"""
+        extra = None
+        for a in guards.atoms(f):
+            if a[0] in ("isnone", "truth") and isinstance(a[1], str) and a[1].startswith("self.") and a[1][5:].isidentifier() and a not in facts:
+                m = a[1][5:]
+                if self.view is not None and self.view.resolve(m) is not None and not self.view.is_property(m):
+                    if extra is None:
+                        extra = dict(facts)
+                    extra[a] = (a[0] == "truth")
+        return extra if extra is not None else facts
+
     def branch(self, test, s, frame):
         """-> list of (state, polarity) feasible under the facts of s."""
         f = guards.norm(test, lambda e: self.canon(e, frame, s.env))
-        v = guards.ev(f, s.facts)
+        v = guards.ev(f, self._with_method_facts(f, s.facts))
         out = []
         for pol in (True, False):
             if v is not None and v != pol:
